@@ -165,7 +165,8 @@ class Harness:
         else:
             # the caller keeps its dict and builds a second list from the same object: neither the dict nor the
             # other list may change when one list is edited
-            w.src = {k: VALUES[v]() for k, v in spec.items()}
+            # (the keys are run-time strings - read from a file, built in a loop - not the interned literals of this module)
+            w.src = {(k + '_')[:-1]: VALUES[v]() for k, v in spec.items()}
             w.src_keys = list(w.src)
             w.pl = ParameterList(w.src)
             w.pl2 = ParameterList(w.src)
